@@ -230,21 +230,23 @@ PROPS["C17"] = Prop(
 RL = "tower-resilience-ratelimiter"
 _rlk = lambda n, what, bound, **kw: H("limiter::verif_kani_in_limiter::" + n, RL, what, bound, models=("tokio",), playback=False, **kw)
 _rls = lambda n, what, bound, **kw: H("verif_kani::c02::" + n, RL, what, bound, models=("tokio",), profile="service", playback=False, mem_gb=24, **kw)
-RL_BOUND = "ONE try_acquire from an ARBITRARY state satisfying the representation invariant (so every history and any number of callers); limit, period, timeout, clock symbolic (whole ms; limit <= 10^6 fixed / <= 1000 counter / <= 3 log)"
+RL_BOUND = "ONE try_acquire from an ARBITRARY state satisfying the representation invariant (so every history and any number of callers); limit, period, timeout, clock symbolic (whole ms; whole seconds for the sliding counter; limit <= 10^6 fixed / <= 4 (quick) <= 16 (thorough) counter / concrete 1..3 log)"
 _rl_h = [
     _rlk("fixed_window_step", "fixed window: refresh only after a full period, a grant consumes one of <= limit permits, wait/reject decisions", RL_BOUND, timeout=600),
     _rlk("fixed_idle_recovers", "fixed window: after two idle periods a full window is available", RL_BOUND, timeout=600),
-    _rlk("sliding_log_step_n0", "sliding log: grants dropped only when expired, grant iff < limit unexpired", RL_BOUND + "; 0 entries in the log", timeout=900),
-    _rlk("sliding_log_step_n1", "same, 1 entry", RL_BOUND, timeout=900),
-    _rlk("sliding_log_step_n2", "same, 2 entries", RL_BOUND, timeout=900),
-    _rlk("sliding_log_step_n3", "same, 3 entries", RL_BOUND, timeout=1200, tiers=("thorough",)),
-    _rlk("sliding_counter_step", "sliding counter: rotation only after a full bucket, grants counted, <= limit per bucket (f64 weights bit-exact)", RL_BOUND, timeout=900),
+    _rlk("sliding_log_step_l1_n0", "sliding log (limit 1, 0 grants in the log): grants dropped only when expired, grant iff < limit unexpired", RL_BOUND, timeout=900),
+    _rlk("sliding_log_step_l1_n1", "sliding log (limit 1, 1 grants in the log): grants dropped only when expired, grant iff < limit unexpired", RL_BOUND, timeout=900),
+    _rlk("sliding_log_step_l2_n1", "sliding log (limit 2, 1 grants in the log): grants dropped only when expired, grant iff < limit unexpired", RL_BOUND, timeout=900),
+    _rlk("sliding_log_step_l2_n2", "sliding log (limit 2, 2 grants in the log): grants dropped only when expired, grant iff < limit unexpired", RL_BOUND, timeout=900),
+    _rlk("sliding_log_step_l3_n2", "sliding log (limit 3, 2 grants in the log): grants dropped only when expired, grant iff < limit unexpired", RL_BOUND, timeout=900, tiers=("thorough",)),
+    _rlk("sliding_log_step_l3_n3", "sliding log (limit 3, 3 grants in the log): grants dropped only when expired, grant iff < limit unexpired", RL_BOUND, timeout=900, tiers=("thorough",)),
+    _rlk("sliding_counter_step_limit4", "sliding counter: rotation only after a full bucket, grants counted, <= limit per bucket (f64 weights bit-exact)", RL_BOUND + "; limit <= 4, whole seconds", timeout=900),
+    _rlk("sliding_counter_step_limit16", "same, limit <= 16", RL_BOUND + "; limit <= 16, whole seconds", timeout=2400, tiers=("thorough",)),
     _rlk("counter_idle_recovers", "sliding counter: empty after two idle periods", RL_BOUND, timeout=600),
-    _rlk("acquire_admitted_iff_granted_fixed", "acquire(): admitted iff its own try_acquire consumed a permit; rejected took nothing; one sleep <= timeout",
-         "one acquire() future, <= 3 polls, between polls any clock advance and up to 2 try_acquire by other callers; limit <= 3", timeout=1500),
-    _rls("call_wiring_fixed", "RateLimiter::call: admitted -> inner exactly once; rejected -> RateLimited, inner untouched", "one call, <= 3 polls, interference by one other caller per step; fixed window", timeout=1800),
-    _rls("call_wiring_sliding_log", "same, sliding log", "as above", timeout=1800, tiers=("thorough",)),
-    _rls("call_wiring_sliding_counter", "same, sliding counter", "as above", timeout=1800, tiers=("thorough",)),
+    _rlk("acquire_protocol", "acquire(): for EVERY sequence of try_acquire answers: admitted iff its last try consumed a permit; at most two tries, one sleep of exactly the offered wait; second try only after the wait",
+         "one acquire() future, <= 3 polls with arbitrary clock advances; try_acquire answers scripted (arbitrary Ok(ZERO)/Ok(wait)/Err)", timeout=1500, profile="service", mem_gb=24),
+    _rlk("call_wiring", "RateLimiter::call: admitted -> inner exactly once, unchanged; rejected -> RateLimited, inner untouched; waiting -> not forwarded",
+         "one call, <= 3 polls; try_acquire answers scripted", timeout=1800, profile="service", mem_gb=24),
 ]
 PROPS["C02"] = Prop(harnesses=_rl_h,
     functions=["limiter::{FixedWindowState,SlidingLogState,SlidingCounterState}::{try_acquire,refresh,maybe_rotate_bucket,estimate_wait_time}",
@@ -253,6 +255,23 @@ PROPS["C02"] = Prop(harnesses=_rl_h,
     outside="products of several acquire() futures (do not finish); sliding-log limits > 3; the composition 'grants respect the window (kernel) + admitted => own grant (acquire) + admitted => one inner call (call)' is an argument",
     assumptions=["Instant::now -> virtual clock, tokio::time::sleep -> virtual-clock model", "all access to the window state is try_acquire under the std mutex"])
 PROPS["C15"] = Prop(harnesses=_rl_h, functions=PROPS["C02"].functions, bounds=PROPS["C02"].bounds, outside=PROPS["C02"].outside, assumptions=PROPS["C02"].assumptions)
+
+# ---------------------------------------------------------------------------
+# C16 reconnect
+# ---------------------------------------------------------------------------
+_r16 = lambda n, what, **kw: H("verif_kani::c16::" + n, RECONNECT, what,
+    "one request, <= 6 polls with any clock advance before each; max_attempts None or 0..=2; inner outcomes symbolic (ok / reconnectable / other error), inner futures complete at a poll of the solver's choice; another request may mark the shared state connected before any poll",
+    models=("tokio", "rand"), profile="service", playback=False, mem_gb=24, timeout=2400, **kw)
+PROPS["C16"] = Prop(
+    harnesses=[_r16("custom_policy_predicate_retry", "custom policy with per-attempt delays, predicate, retry on"),
+               _r16("custom_policy_no_predicate", "custom policy, no predicate", tiers=("thorough",)),
+               _r16("fixed_policy_no_retry", "fixed policy, retry_on_reconnect off"),
+               _r16("no_policy", "policy None", tiers=("thorough",))],
+    functions=["tower_resilience_reconnect::service::{ReconnectService::{new,poll_ready,call},ReconnectFuture::poll}", "ReconnectConfig::should_reconnect", "ReconnectPolicy::delay_for_attempt", "ReconnectState::{mark_connected,mark_disconnected,mark_reconnecting,state}"],
+    bounds="one request, <= 6 polls, max_attempts <= 2 or unlimited (then bounded by the 6 polls), delays <= 10 s",
+    outside="exponential/jittered policies here (their delays are C14); more than 6 polls; u32 overflow of the attempt counter after 2^32 failures with unlimited attempts",
+    assumptions=["tokio::time::Sleep replaced by the virtual-clock model; Instant::now -> virtual clock", "the predicate sees InnerErr codes (only error type in the harness)"],
+)
 
 # ---------------------------------------------------------------------------
 # C05 retry
@@ -308,6 +327,51 @@ NOT_APPLICABLE = {
            "containers would verify nothing the statement says (DESIGN.md section 6)",
 }
 MANIFEST_TEXT = {
+    "C01": {"text": "Assume/guarantee. Bounded model checking of ONE call through the real Bulkhead::call future against the semaphore's contract (environment "
+            "model answering at the solver's choice), for every schedule of its polls, every clock value, every max_wait setting, every inner outcome and every "
+            "drop point: the inner service is entered only while the caller holds a permit, the permit outlives the inner future, it is released exactly once on "
+            "every exit, one semaphore of max_concurrent_calls permits per layer. With the semaphore contract (<= N permits outstanding) this gives <= N requests "
+            "inside the inner service for any number of callers.",
+            "note": "The composition step and the semaphore contract are not solver-checked; tokio is replaced by /verif/models/tokio (product of several call "
+            "futures does not finish in CBMC). Panics: no unwinding in Kani; drop-at-any-point exercises the same RAII path. <= 3 polls per call.",
+            "design_ref": "DESIGN.md 3.3, 4/C01"},
+    "C07": {"text": "Same protocol harness as C01, assertions for capacity: after the call future is gone (completed with any outcome, or dropped before the first "
+            "poll / while queued / while running) no permit is held and every granted permit was released exactly once; the caller asks for a slot at its first poll "
+            "and enters the inner service in the very poll that grants it; while not granted it is pending for every instant before first-poll + max_wait and "
+            "resolves to the Timeout error at the first poll at or after it; rejected and cancelled-while-waiting callers never reach the inner service.",
+            "note": "As C01. 'Arrival' is the caller's first poll (tokio::time::timeout is armed there). FIFO fairness of the semaphore is tokio's, not checked.",
+            "design_ref": "DESIGN.md 4/C07"},
+    "C02": {"text": "Kernel: one try_acquire from an ARBITRARY window state (fixed, sliding log with 0..3 entries, sliding counter) with symbolic limit, period, timeout and "
+            "clock (boundary instants included) is decided by the solver: windows are never refreshed/rotated before a full period, a grant consumes one of at most "
+            "limit permits of the current window / needs fewer than limit unexpired grants, nothing else adds capacity. Protocol: the real acquire() future under "
+            "arbitrary clock advances and interfering try_acquires of other callers is admitted iff its own try_acquire consumed a permit; RateLimiter::call forwards "
+            "exactly the admitted calls.",
+            "note": "Inductive step + composition (not solver-checked) instead of a product of several acquire() futures, which does not finish. f64 weights of the "
+            "sliding counter are bit-exact in CBMC. Trusted: Kani/CBMC, virtual clock stubs, tokio sleep model.",
+            "design_ref": "DESIGN.md 4/C02"},
+    "C15": {"text": "Same harnesses as C02, assertions for timeliness: immediate grant iff the window has capacity; a wait is offered only if it fits timeout_duration and "
+            "equals the time to the next window; rejection only when the needed wait exceeds the timeout; acquire() sleeps at most once and at most timeout_duration; "
+            "a rejected caller took nothing and never reaches the inner service, an admitted one reaches it exactly once; after two idle periods capacity is full.",
+            "note": "As C02.", "design_ref": "DESIGN.md 4/C15"},
+    "C05": {"text": "Bounded model checking of ONE request through the real Retry::call future with symbolic outcome sequence (<= 3), max_attempts 0..=3 (fixed or per "
+            "request), symbolic backoff per retry, symbolic budget grants, predicate on/off: attempts between 1 and max(1,max_attempts), stop at first success / refused "
+            "error / refused grant / exhaustion, result == last outcome, before retry k it sleeps exactly the policy's backoff for k and is still pending at any instant "
+            "before it elapsed, every retry preceded by a granted withdrawal, one deposit per success.",
+            "note": "Interleavings of several requests act only through the shared budget (C08). tokio sleep is the virtual-clock model.", "design_ref": "DESIGN.md 4/C05"},
+    "C13": {"text": "Kernel: every limit update of AimdController, the Aimd wrapper and Vegas from an ARBITRARY internal state with the limit in [min,max] stores a limit in "
+            "[min,max] (each update is one load + one store, so this covers every interleaving of any number of threads); f64 decrease factors bit-exact. Service: one "
+            "call through the real AdaptiveService with any number of calls in flight on other clones: readiness refused iff in_flight >= limit, the call counts from "
+            "call() until completion, error or drop at any point and not after.",
+            "note": "Limits <= 2^32. Panicking inner calls: same RAII guard as the drop path (no unwinding in Kani).", "design_ref": "DESIGN.md 4/C13"},
+    "C17": {"text": "Bounded model checking of one request through the real Fallback::call for each of the six strategies, configuration built through the public builder "
+            "with the predicate set before or after the strategy: success passes unchanged and triggers nothing; an error triggers the strategy exactly when the "
+            "predicate accepts it (always without one); result is exactly the strategy's value for this request and this error; closures run exactly once.",
+            "note": "All 32-bit request/response/error values; predicate = arbitrary bit-mask test.", "design_ref": "DESIGN.md 4/C17"},
+    "C19": {"text": "Bounded model checking of one request through the real Chaos::call against a contract model of rand: for every error/latency rate in [0,1], every roll "
+            "in [0,1), every latency range in whole ms and every seed: injected error => inner not called; rates 0 => transparent, no draw, no sleep; error rate 1 => always "
+            "the injected error; injected latency in [min,max] (min when min>=max), whole ms, and the inner call only after it elapsed; only the seeded generator is used "
+            "and the number of draws is a function of config and rolls; clones share one advancing stream and a replay with the same seed gives the same decisions.",
+            "note": "That a seeded StdRng is itself deterministic is rand's contract (trusted).", "design_ref": "DESIGN.md 4/C19"},
     "C03": {
         "text": "Bounded model checking of the real Circuit state machine, one inductive step from an ARBITRARY open state (any window contents, "
                 "any configuration, any clock value): try_acquire is false and leaves state and timer untouched for every instant before "
